@@ -5,7 +5,7 @@
 # (tools/mutrun.sh does the same against /repo itself.)
 tier=$1; shift
 SNAP=${SNAP:-/tmp/verif-snap}; RM=${RM:-/tmp/repo-mut}
-mkdir -p $SNAP /tmp/mutrun
+OUTD=${OUTD:-/tmp/mutrun}; mkdir -p $SNAP $OUTD
 rsync -a --delete --exclude out/ --exclude work/ --exclude .git/ /verif/ $SNAP/
 if [ ! -d $RM ]; then git -C /repo worktree add --detach $RM HEAD >/dev/null 2>&1; fi
 git -C $RM checkout -q --detach $(git -C /repo rev-parse HEAD); git -C $RM checkout -q -- . ; git -C $RM clean -fdq
@@ -15,9 +15,9 @@ for spec in "$@"; do
   name=${spec%%:*}; props=${spec#*:}
   git -C $RM apply /verif/seeded/$name/patch.diff || { echo "$name patch failed"; continue; }
   for p in ${props//,/ }; do
-    (cd $SNAP && timeout 2400 ./check $p --tier $tier > /tmp/mutrun/$name.$p.out 2> /tmp/mutrun/$name.$p.err); rc=$?
-    echo "$name $p rc=$rc $(grep -c '^VIOLATION' /tmp/mutrun/$name.$p.out) violation(s) $(grep -c '^KNOWN' /tmp/mutrun/$name.$p.out) known"
-    grep -- '->' /tmp/mutrun/$name.$p.err | head -3 | cut -c1-400
+    (cd $SNAP && timeout 2400 ./check $p --tier $tier > $OUTD/$name.$p.out 2> $OUTD/$name.$p.err); rc=$?
+    echo "$name $p rc=$rc $(grep -c '^VIOLATION' $OUTD/$name.$p.out) violation(s) $(grep -c '^KNOWN' $OUTD/$name.$p.out) known"
+    grep -- '->' $OUTD/$name.$p.err | head -3 | cut -c1-400
   done
   git -C $RM checkout -q -- . ; git -C $RM clean -fdq
 done
